@@ -25,12 +25,23 @@ fn is_nan(v: &ScalarValue) -> bool {
     }
 }
 
-/// a NaN other than the canonical quiet NaN (`f32::NAN` / `f64::NAN`): total order tells NaN payloads
-/// and signs apart, which no data source produces; stated bound, see DESIGN.md
+/// a NaN other than the two default quiet NaNs (`f32::NAN` and its negation, which is what x86 produces
+/// for 0.0/0.0): total order also tells NaN payloads apart, which no data source produces; stated
+/// bound, see DESIGN.md
+fn odd_nan(v: &ScalarValue) -> bool {
+    match v {
+        ScalarValue::Float32(Some(f)) => f.is_nan() && f.to_bits() != 0x7fc0_0000u32 && f.to_bits() != 0xffc0_0000u32,
+        ScalarValue::Float64(Some(f)) => f.is_nan() && f.to_bits() != 0x7ff8_0000_0000_0000u64 && f.to_bits() != 0xfff8_0000_0000_0000u64,
+        _ => false,
+    }
+}
+
+/// query literals: only the positive default NaN (a negative NaN literal compares below everything in
+/// total order; nobody writes one)
 fn negative_nan(v: &ScalarValue) -> bool {
     match v {
-        ScalarValue::Float32(Some(f)) => f.is_nan() && f.to_bits() != f32::NAN.to_bits(),
-        ScalarValue::Float64(Some(f)) => f.is_nan() && f.to_bits() != f64::NAN.to_bits(),
+        ScalarValue::Float32(Some(f)) => f.is_nan() && f.to_bits() != 0x7fc0_0000u32,
+        ScalarValue::Float64(Some(f)) => f.is_nan() && f.to_bits() != 0x7ff8_0000_0000_0000u64,
         _ => false,
     }
 }
@@ -92,10 +103,10 @@ fn satisfies(v: &ScalarValue, q: &SargableQuery) -> bool {
 fn case(ty: u8) {
     // one arbitrary row value of the zone and statistics that satisfy the builder's contract for it
     let v = any_value(ty, true);
-    vnd::assume(!negative_nan(&v));
+    vnd::assume(!odd_nan(&v));
     // a zone whose rows are all NULL has NULL min/max (the accumulators saw no value)
     let (min, max) = (any_value(ty, true), any_value(ty, true));
-    vnd::assume(!negative_nan(&min) && !negative_nan(&max));
+    vnd::assume(!odd_nan(&min) && !odd_nan(&max));
     vnd::assume(min.is_null() == max.is_null());
     let zone = ZoneMapStatistics { min, max, null_count: vnd::any(), nan_count: vnd::any(), fragment_id: 0, zone_start: 0, zone_length: 8 };
     // contract of the builder (update_stats): null_count / nan_count count the NULL / NaN rows; min and max
@@ -114,7 +125,7 @@ fn case(ty: u8) {
         0 => SargableQuery::IsNull(),
         1 => {
             let t = any_value(ty, true);
-            vnd::assume(!negative_nan(&t));
+            vnd::assume(!odd_nan(&t));
             SargableQuery::Equals(t)
         }
         2 => {
@@ -123,12 +134,12 @@ fn case(ty: u8) {
             vnd::assume(n <= 2);
             if n >= 1 {
                 let t = any_value(ty, true);
-                vnd::assume(!negative_nan(&t));
+                vnd::assume(!odd_nan(&t));
                 l.push(t);
             }
             if n >= 2 {
                 let t = any_value(ty, true);
-                vnd::assume(!negative_nan(&t));
+                vnd::assume(!odd_nan(&t));
                 l.push(t);
             }
             SargableQuery::IsIn(l)
